@@ -101,10 +101,11 @@ func runCache(t *testing.T, s *Scenario) (evs []wire.Event) {
 
 // ProviderScript: what provider k (in list order) answers to its successive requests.
 type ProviderResp struct {
-	Kind    string `json:"kind"` // ok | status | body | neterr | hang | slowbody
-	Status  int    `json:"status"`
-	Body    string `json:"body"`
-	DelayUs int64  `json:"delay_us"`
+	Kind       string `json:"kind"` // ok | status | body | neterr | hang | slowbody
+	Status     int    `json:"status"`
+	Body       string `json:"body"`
+	DelayUs    int64  `json:"delay_us"`
+	RetryAfter string `json:"retry_after"` // Retry-After header of the answer ("" = none)
 }
 
 type scriptedRT struct {
@@ -179,7 +180,11 @@ func (rt *scriptedRT) RoundTrip(req *http.Request) (*http.Response, error) {
 		if st == 0 {
 			st = 200
 		}
-		return mk(st, io.NopCloser(strings.NewReader(r.Body))), nil
+		resp := mk(st, io.NopCloser(strings.NewReader(r.Body)))
+		if r.RetryAfter != "" {
+			resp.Header.Set("Retry-After", r.RetryAfter)
+		}
+		return resp, nil
 	}
 }
 
